@@ -297,7 +297,11 @@ pub fn gen03(r: &mut Rng, n: usize) -> Vec<String> {
     out
 }
 
-const PATH_PARTS: [&str; 14] = ["a", "b", "..", ".", "", "c.txt", "...", "..a", "a..", " ", "@C@", "x/y", "é", "-"];
+const PATH_PARTS: [&str; 20] = [
+    "a", "b", "..", ".", "", "c.txt", "...", "..a", "a..", " ", "@C@", "x/y", "é", "-",
+    // not separators on this platform: one ordinary component each
+    "..\\..\\evil", "a\\b", "\\abs", "..\\", "C:\\x", "..\\..",
+];
 
 fn gen_path(r: &mut Rng) -> Vec<u8> {
     match r.below(10) {
